@@ -193,22 +193,23 @@ Definition same_block_reports (n : node) : list (block * block) :=
   end.
 
 (** ** almost_swapped: per block, over its statements (the last statement is not looked at).
-    The lint compares the printed, trivia-free text of the target and of the value. *)
+    The lint compares target and value token by token (code_tokens) and shows their trivia-free text. *)
 Definition text (l : list string) : string := String.concat "" l.
 
 Fixpoint stmts_list (ss : stmts) : list stmt := match ss with StNil => [] | StCons s r => s :: stmts_list r end.
 
-Fixpoint swap_loop (last : option (string * string)) (ss : list stmt) : list (string * string) :=
+(** [last]: the previous single assignment's (target tokens, value tokens) *)
+Fixpoint swap_loop (last : option (list string * list string)) (ss : list stmt) : list (string * string) :=
   match ss with
   | [] => []
   | SAssign (VsCons v VsNil) (EsCons e EsNil) :: r =>
       if se_var v then swap_loop None r
       else
-        let vt := text (tx_var v) in
-        let et := text (tx_expr e) in
+        let vt := tx_var v in
+        let et := tx_expr e in
         match last with
         | Some (n0, n1) =>
-            if str_eqb n0 et && str_eqb n1 vt then (n0, n1) :: swap_loop None r
+            if strs_eqb n0 et && strs_eqb n1 vt then (text n0, text n1) :: swap_loop None r
             else swap_loop (Some (vt, et)) r
         | None => swap_loop (Some (vt, et)) r
         end
